@@ -156,7 +156,7 @@ Fail(why, t, lz) == Res(FALSE, why, t, NoAttr, lz)
 
 \* Common prelude: p must be a directory whose contents can be obtained.
 DirProblem(cas, t, p) ==
-  IF ~IsDir(t, p) THEN "notdir"
+  IF ~IsDir(t, p) THEN "unknowndir"
   ELSE IF ~Accessible(cas, t, p) THEN "unavail"
   ELSE ""
 
